@@ -7,6 +7,14 @@ use vcore::Verdict;
 
 fn main() {
     let args: Vec<String> = std::env::args().skip(1).collect();
+    if args.first().map(|s| s == "--selftest").unwrap_or(false) {
+        let f = vc_ref::selftest::run();
+        for l in &f {
+            println!("SELFTEST FAIL: {l}");
+        }
+        println!("reference self-test: {} vectors, {} failures", vc_ref::selftest::count(), f.len());
+        return;
+    }
     if args.first().map(|s| s == "--case").unwrap_or(false) {
         run_case(&args[1]);
         return;
